@@ -215,6 +215,10 @@ func rangeHeader(iff *ssa.If) bool {
 	switch c := iff.Cond.(type) {
 	case *ssa.BinOp:
 		if c.Op == token.LSS {
+			// for i := 0; i < len(s); i++ : visits every element in order, like a range loop
+			if p, ok := c.X.(*ssa.Phi); ok && p.Block() == iff.Block() && classicIndexPhi(p) != nil {
+				return true
+			}
 			if bo, ok := c.X.(*ssa.BinOp); ok && bo.Op == token.ADD {
 				if phi, ok := bo.X.(*ssa.Phi); ok {
 					for _, e := range phi.Edges {
@@ -287,6 +291,54 @@ func (w *Walker) CondAtoms() (atoms []string) {
 		if !seen[name] {
 			seen[name] = true
 			atoms = append(atoms, name)
+		}
+	}
+	// boolean results assembled from comparisons that are never branched on
+	// (`ok := a == "" || f(x); return ok && ...`): their leaves are atoms too
+	var leaves func(v ssa.Value, depth int)
+	visited := map[ssa.Value]bool{}
+	leaves = func(v ssa.Value, depth int) {
+		if v == nil || depth > 12 || visited[v] {
+			return
+		}
+		visited[v] = true
+		if _, isC := BoolConst(v); isC {
+			return
+		}
+		inner, _ := Not(v)
+		if phi, ok := inner.(*ssa.Phi); ok {
+			for _, e := range phi.Edges {
+				leaves(e, depth+1)
+			}
+			return
+		}
+		if il := w.boolHelper(inner, 0); il != nil {
+			for a := range il.atoms {
+				if !seen[a] {
+					seen[a] = true
+					atoms = append(atoms, a)
+				}
+			}
+			return
+		}
+		n, _ := w.Atom(inner)
+		if !seen[n] {
+			seen[n] = true
+			atoms = append(atoms, n)
+		}
+	}
+	for _, b := range w.Fn.Blocks {
+		if len(b.Instrs) == 0 {
+			continue
+		}
+		ret, ok := b.Instrs[len(b.Instrs)-1].(*ssa.Return)
+		if !ok {
+			continue
+		}
+		for _, r := range ReturnResults(ret) {
+			if bt, ok := r.Type().Underlying().(*types.Basic); ok && bt.Kind() == types.Bool {
+				leaves(r, 0)
+			}
 		}
 	}
 	for _, hc := range w.Helpers {
